@@ -9,6 +9,9 @@ def mode_wccn(p):
         rs = np.random.RandomState(seed)
         K, D = rs.randint(1, 4), rs.randint(1, 4)
         per = rs.randint(D + 1, D + 4, size=K)
+        if seed % 3 == 1 and K >= 2:
+            per[-1] = 1                       # a class with a single sample (adds nothing to the scatter, still counts as a class)
+            per[0] += D + 1
         X = np.vstack([rs.normal(size=(n, D)) * rs.uniform(0.5, 2) + rs.normal(size=D) * 3 for n in per])
         base = np.repeat(np.arange(K), per)
         ref = None
